@@ -74,6 +74,24 @@ _KANI = [dict(crate="kdb", harness=f"c20::{l}_{part}", bounded=False, bound=_KB,
 _KANI += [dict(crate="kdb", harness=f"c20::{l}_{part}", bounded=False, bound=_KB, timeout=400, mem_gb=10, thorough_only=True)
           for l in _THOROUGH_LAYERS for part in ("words", "info", "code")]
 
+# Kani stand-in for the CacheDB obligations of unit dbwrap (crate kani/kcachedb: the REAL in_memory_db.rs included by #[path]).
+# Verus cannot read a has_storage_ref written with iterator adapters / closures (independent seeds C20-1, C21-1: the unit reports
+# UNDECIDED, lost loop anchor); Kani checks the compiled MIR against the same oracle on a bounded family of cache contents.
+# BOUNDED: never counted as proved.
+_KCB = ("one concrete queried address; the cache holds at most one account (the queried one or one other) with at most two slots under "
+        "concrete keys (address / keys fixed so that CBMC constant-folds the std HashMap probes under a fixed SipHash seed); symbolic: "
+        "AccountState (all four), every bit of the slot values / cached balance, nonce, code hash, the inner database's answers (Ok / Err); "
+        "AccountInfo.code == None; unwind 34")
+_KCB_ARGS = ["--no-assertion-reach-checks", "--cbmc-args", "--max-field-sensitivity-array-size", "2048"]
+_KCB_QUICK = ["has_storage_not_cached", "has_storage_cached_0", "has_storage_cached_1"]
+_KCB_THOROUGH = ["has_storage_cached_2", "has_storage_other_cached_1", "storage_ref_not_cached", "storage_ref_cached_1_hit",
+                 "storage_ref_cached_1_miss", "storage_ref_cached_0_miss", "basic_ref_not_cached", "basic_ref_cached_0"]
+_KANI_CACHEDB = [dict(crate="kcachedb", harness=f"cachedb::{h}", bounded=True, bound=_KCB, timeout=600, mem_gb=8, args=_KCB_ARGS)
+                 for h in _KCB_QUICK]
+_KANI_CACHEDB += [dict(crate="kcachedb", harness=f"cachedb::{h}", bounded=True, bound=_KCB, timeout=600, mem_gb=8, args=_KCB_ARGS,
+                       thorough_only=True) for h in _KCB_THOROUGH]
+_KANI += _KANI_CACHEDB
+
 PROP = dict(
     level="proof",
     engine="verus+kani",
@@ -109,7 +127,10 @@ PROP = dict(
                "call_ensures cannot take a &mut argument); an Ok answer is cached, the same question is then answered from the cache, nothing else changes. "
                "COMPLETE (Kani, loop-free, symbolic answers): &mut D and Box<D> as Database, &D / &mut D / Box<D> / Rc<D> / Arc<D> as DatabaseRef "
                "(all five methods incl. has_storage), DatabaseComponents as Database and DatabaseRef (basic / code_by_hash / storage from the "
-               "state component with errors wrapped in ::State, block_hash from the block-hash component with errors wrapped in ::BlockHash).",
+               "state component with errors wrapped in ::State, block_hash from the block-hash component with errors wrapped in ::BlockHash). "
+               "BOUNDED (Kani crate kcachedb, NOT counted as proved; a second, syntax-independent check of (2b) and of the reads of (3) on the compiled MIR of "
+               "the real in_memory_db.rs): CacheDB::has_storage_ref / has_storage, storage_ref, basic_ref against the same oracle for an empty cache and for "
+               "one cached account with 0 / 1 / 2 slots, every AccountState, symbolic slot values and inner answers.",
     level_note="NOT covered (named, nothing is claimed for them): "
                "(a) State<DB>::{basic, storage, block_hash} incl. the 256-block hash window: block_hash uses the BTreeMap entry / first_entry / "
                "OccupiedEntry::remove API, for which vstd has no model (vstd models only HashMap's entry API); storage wraps the database call in a "
